@@ -17,7 +17,7 @@ from vmon.res import Result, exc_name
 
 ID = "C03"
 LEVEL = "exploration"
-CASES = {"quick": 20000, "thorough": 400000}
+CASES = {"quick": 20000, "thorough": 1600000}
 RULE = ("seeded random frames (row-id + 1-4 columns) sorted by 1-3 key columns over bool/int(incl. INT64 extremes)/"
         "float(+-inf,+-0.0,>=2**53)/short,>=50-char,boundary-straddling and fixed-width strings (incl. code points above "
         "U+FFFF)/date/datetime/object bool,str with None, all direction vectors, heavy ties, every NA pattern, 0..120 rows; "
